@@ -5,11 +5,13 @@ import (
 	"flag"
 	"fmt"
 	"os"
+	"os/signal"
 	"path/filepath"
 	"runtime/debug"
 	"runtime/pprof"
 	"sort"
 	"strings"
+	"syscall"
 	"time"
 
 	"golang.org/x/tools/go/packages"
@@ -42,6 +44,7 @@ type HarnessResult struct {
 	Stubs       []string       `json:"stubs"`
 	Notes       []string       `json:"notes"`
 	MaxUnwind   int            `json:"max_unwind"`
+	Cuts        int            `json:"paths_cut"`
 	Exhausted   string         `json:"exhausted,omitempty"`
 	Merges      int            `json:"merges"`
 	Observed    []string       `json:"observed,omitempty"`
@@ -195,6 +198,20 @@ func main() {
 			e.deadline = time.Now().Add(time.Duration(*timeout) * time.Second)
 		}
 		th := time.Now()
+		if *verbose {
+			// debugging aid: SIGUSR1 prints where the interpreter currently is
+			sig := make(chan os.Signal, 1)
+			signal.Notify(sig, syscall.SIGUSR1)
+			go func() {
+				for range sig {
+					q := 0
+					if e.s != nil {
+						q = e.s.Queries
+					}
+					fmt.Fprintf(os.Stderr, "STATUS paths=%d instrs=%d pathinstrs=%d queries=%d site=%s%s\n", e.Paths, e.Instrs, e.instrPath, q, e.curSite, e.stackTrace())
+				}
+			}()
+		}
 		func() {
 			defer func() {
 				if r := recover(); r != nil {
@@ -263,6 +280,7 @@ func main() {
 		hr.Stubs = keys(e.Stubs)
 		hr.Notes = keys(e.Assumes)
 		hr.MaxUnwind = e.MaxUnwind
+		hr.Cuts = e.Cuts
 		hr.Exhausted = e.Exhausted
 		hr.Merges = e.SpecOK
 		hr.Pending = len(e.work)
